@@ -76,6 +76,11 @@ func (s *server) Close(ctx context.Context) error {
 			conn, ok := value.(gracefulExit)
 			if !ok || conn.isIdle() {
 				value.(Connection).Close()
+				// Close leaves the work to a handler that got hold of the connection after the idle
+				// check; the connection then stays tracked until that handler returns.
+				if _, tracked := s.connections.Load(key); tracked {
+					activeConn++
+				}
 			} else {
 				activeConn++
 			}
